@@ -1,5 +1,6 @@
 //! Corpus of lexer definitions for the generated-code analyser (never executed; only expanded and parsed).
 #![allow(dead_code, unused)]
+pub mod byte_edges;
 pub mod lookaround;
 pub mod perms;
 pub mod rejects;
